@@ -2,6 +2,7 @@
 package document
 
 import (
+	"bytes"
 	"encoding/xml"
 	"fmt"
 	"strconv"
@@ -140,6 +141,39 @@ type NumberingManager struct {
 	nextNumID         int
 	abstractNums      map[string]*AbstractNum
 	numInstances      map[string]*NumInstance
+	// 文档已有的 word/numbering.xml（打开的文档、由模板克隆的文档）：其中的定义按原样保留，
+	// 本管理器新建的定义使用其后的ID并写在它们之后
+	existing *existingNumbering
+}
+
+// existingNumbering 文档已有编号部件的内容，按原始字节保存
+type existingNumbering struct {
+	part         *rawPart
+	leading      [][]byte // 第一个 abstractNum 之前的其他子元素
+	abstractNums [][]byte
+	nums         [][]byte
+	trailing     [][]byte // 其余子元素
+	// 已有编号实例引用的抽象编号：numId -> abstractNumId
+	numAbstract map[string]string
+}
+
+// abstractNumIDOf 读出一个 w:num 元素引用的抽象编号ID
+func abstractNumIDOf(numXML []byte) (string, bool) {
+	decoder := xml.NewDecoder(bytes.NewReader(numXML))
+	for {
+		token, err := decoder.Token()
+		if err != nil {
+			return "", false
+		}
+		if start, ok := token.(xml.StartElement); ok && start.Name.Local == "abstractNumId" {
+			for _, attr := range start.Attr {
+				if attr.Name.Local == "val" {
+					return attr.Value, true
+				}
+			}
+			return "", false
+		}
+	}
 }
 
 // getNumberingManager 获取当前文档的编号管理器（每个文档独立，原因同 getFootnoteManager）
@@ -150,6 +184,11 @@ func (d *Document) getNumberingManager() *NumberingManager {
 			nextNumID:         1,
 			abstractNums:      make(map[string]*AbstractNum),
 			numInstances:      make(map[string]*NumInstance),
+		}
+		// 文档已经带有编号定义时（打开的文档、由文档模板渲染出的文档），已有的列表段落引用着这些定义：
+		// 保留它们，新的定义接着已有的ID编号
+		if raw, ok := d.parts["word/numbering.xml"]; ok {
+			d.numberingManager.adoptExisting(raw)
 		}
 	}
 	return d.numberingManager
@@ -402,8 +441,14 @@ func (d *Document) updateNumberingFile() {
 		numbering.NumberingInstances = append(numbering.NumberingInstances, numInstance)
 	}
 
-	// 序列化
-	numberingXML, err := xml.MarshalIndent(numbering, "", "  ")
+	// 序列化（文档已有的编号定义原样保留在前面）
+	var numberingXML []byte
+	var err error
+	if manager.existing != nil {
+		numberingXML, err = manager.numberingWithExisting(numbering)
+	} else {
+		numberingXML, err = xml.MarshalIndent(numbering, "", "  ")
+	}
 	if err != nil {
 		return
 	}
@@ -411,6 +456,79 @@ func (d *Document) updateNumberingFile() {
 	// 添加XML声明
 	xmlDeclaration := []byte(`<?xml version="1.0" encoding="UTF-8" standalone="yes"?>` + "\n")
 	d.parts["word/numbering.xml"] = append(xmlDeclaration, numberingXML...)
+}
+
+// adoptExisting 读取已有的编号部件：记下根元素和各个子元素的原始字节，以及已用的最大ID。
+// 部件无法解析时不做任何事（按没有已有定义处理）。
+func (m *NumberingManager) adoptExisting(raw []byte) {
+	part := readRawPart(raw, "numbering")
+	if part == nil || len(part.children) == 0 {
+		// 空的编号部件（新文档初始化时生成的）：没有需要保留的内容
+		return
+	}
+	found := &existingNumbering{part: part, numAbstract: map[string]string{}}
+	maxAbstract, maxNum := -1, 0
+	for _, child := range part.children {
+		switch child.local {
+		case "abstractNum":
+			found.abstractNums = append(found.abstractNums, child.raw)
+			if id, err := strconv.Atoi(child.attrs["abstractNumId"]); err == nil && id > maxAbstract {
+				maxAbstract = id
+			}
+		case "num":
+			found.nums = append(found.nums, child.raw)
+			if id, err := strconv.Atoi(child.attrs["numId"]); err == nil && id > maxNum {
+				maxNum = id
+			}
+			if abstractID, ok := abstractNumIDOf(child.raw); ok {
+				found.numAbstract[child.attrs["numId"]] = abstractID
+			}
+		default:
+			if len(found.abstractNums) == 0 && len(found.nums) == 0 {
+				found.leading = append(found.leading, child.raw)
+			} else {
+				found.trailing = append(found.trailing, child.raw)
+			}
+		}
+	}
+	m.existing = found
+	m.nextAbstractNumID = maxAbstract + 1
+	m.nextNumID = maxNum + 1
+}
+
+// numberingWithExisting 把已有的编号定义和本管理器的定义合成一个部件：
+// 先是全部抽象编号（已有的在前），再是全部编号实例（已有的在前）
+func (m *NumberingManager) numberingWithExisting(own *Numbering) ([]byte, error) {
+	var out bytes.Buffer
+	out.Write(m.existing.part.openTag(own.Xmlns))
+	writeAll := func(children [][]byte) {
+		for _, child := range children {
+			out.WriteString("\n  ")
+			out.Write(child)
+		}
+	}
+	writeAll(m.existing.leading)
+	writeAll(m.existing.abstractNums)
+	for _, abstractNum := range own.AbstractNums {
+		data, err := xml.MarshalIndent(abstractNum, "  ", "  ")
+		if err != nil {
+			return nil, err
+		}
+		out.WriteString("\n")
+		out.Write(data)
+	}
+	writeAll(m.existing.nums)
+	for _, numInstance := range own.NumberingInstances {
+		data, err := xml.MarshalIndent(numInstance, "  ", "  ")
+		if err != nil {
+			return nil, err
+		}
+		out.WriteString("\n")
+		out.Write(data)
+	}
+	writeAll(m.existing.trailing)
+	out.WriteString("\n" + m.existing.part.closeTag())
+	return out.Bytes(), nil
 }
 
 // addNumberingRelationship 添加编号关系
@@ -437,12 +555,18 @@ func (d *Document) RestartNumbering(numID string) {
 	newNumID := strconv.Itoa(manager.nextNumID)
 	manager.nextNumID++
 
-	// 如果存在原有实例，复制其抽象编号引用
-	if existing, exists := manager.numInstances[numID]; exists {
+	// 如果存在原有实例（本管理器创建的，或者文档已有的），复制其抽象编号引用
+	abstractID, exists := "", false
+	if own, ok := manager.numInstances[numID]; ok {
+		abstractID, exists = own.AbstractNumID.Val, true
+	} else if manager.existing != nil {
+		abstractID, exists = manager.existing.numAbstract[numID]
+	}
+	if exists {
 		newInstance := &NumInstance{
 			NumID: newNumID,
 			AbstractNumID: &AbstractNumReference{
-				Val: existing.AbstractNumID.Val,
+				Val: abstractID,
 			},
 		}
 		manager.numInstances[newNumID] = newInstance
